@@ -147,6 +147,7 @@ Attributes: Logarithms
 """
 
 import math
+import threading
 from collections import defaultdict
 from decimal import Decimal
 from functools import lru_cache, total_ordering
@@ -186,6 +187,10 @@ __version__ = version("measured")
 
 NUMERIC_CLASSES = (int, float, Decimal)
 Numeric = Union[int, float, Decimal]
+
+# Dimensions, Prefixes and Units are singletons: looking an instance up and registering a
+# new one has to be a single step when several threads construct the same value
+_interning_lock = threading.RLock()
 
 
 class FractionalDimensionError(ValueError):
@@ -299,13 +304,14 @@ class Dimension:
         symbol: Optional[str] = None,
     ) -> "Dimension":
         key = exponents
-        if key in cls._known:
-            return cls._known[key]
+        with _interning_lock:
+            if key in cls._known:
+                return cls._known[key]
 
-        self = super().__new__(cls)
-        self._initialized = False
-        cls._known[key] = self
-        return self
+            self = super().__new__(cls)
+            self._initialized = False
+            cls._known[key] = self
+            return self
 
     def __init__(
         self,
@@ -647,13 +653,14 @@ class Prefix:
             return IdentityPrefix
 
         key = (base, exponent)
-        if key in cls._known:
-            return cls._known[key]
+        with _interning_lock:
+            if key in cls._known:
+                return cls._known[key]
 
-        self = super().__new__(cls)
-        self._initialized = False
-        cls._known[key] = self
-        return self
+            self = super().__new__(cls)
+            self._initialized = False
+            cls._known[key] = self
+            return self
 
     def __init__(
         self,
@@ -923,18 +930,19 @@ class Unit:
         symbol: Optional[str] = None,
     ) -> "Unit":
         key = cls._build_key(prefix, factors)
-        if key in cls._known:
-            return cls._known[key]
+        with _interning_lock:
+            if key in cls._known:
+                return cls._known[key]
 
-        if name and name in cls._by_name:
-            return cls._by_name[name]
+            if name and name in cls._by_name:
+                return cls._by_name[name]
 
-        self = super().__new__(cls)
-        self._initialized = False
-        if not factors:
-            key = cls._build_key(prefix, {self: 1})
-        cls._known[key] = self
-        return self
+            self = super().__new__(cls)
+            self._initialized = False
+            if not factors:
+                key = cls._build_key(prefix, {self: 1})
+            cls._known[key] = self
+            return self
 
     def __init__(
         self,
